@@ -44,7 +44,7 @@ Qed.
 Section Range.
 Variable T : Tables.t.
 
-Definition PB : Z := 50.      (* bound on the piece-square entries *)
+Definition PB : Z := 1000.    (* bound on the piece-square entries (generous: tuning the tables must not break the range obligation) *)
 Definition pst_le (ts : list (list (list Z))) : bool :=
   forallb (fun stg => forallb (fun row => forallb (fun v => (Z.abs v <=? PB)%Z) row) stg) ts.
 Definition vsum : N := val_q T + val_r T + val_b T + val_n T + val_p T.
